@@ -48,7 +48,9 @@ async fn one_case(log: &Log, r: &mut Rng, c: &Value, http: &str, shard: u8, k: u
     let target_decides = connect || form.starts_with("abs-");
     let method = if connect { "CONNECT".to_string() } else { (*r.pick(&["GET", "POST", "PUT", "DELETE", "OPTIONS", "HEAD"])).to_string() };
     let version = (*r.pick(&["HTTP/1.1", "HTTP/1.1", "HTTP/1.0"])).to_string();
-    let path = (*r.pick(&["/", "/index.html", "/a/b/c?x=1&y=2", "/p%20q"])).to_string();
+    // paths with every character that means something elsewhere in a URI
+    let path = (*r.pick(&["/", "/index.html", "/a/b/c?x=1&y=2", "/p%20q", "/@scope/pkg", "/x?next=@other:8080/", "/a:b/c:443", "//double//slash",
+                          "/q?u=http://example.com:81/z", "/p;v=1,2", "/brackets[1]", "/hash%23frag", "/very/long/path/aaaaaaaaaaaaaaaaaaaaaaaaaaaaaaaaaaaaaaaaaaaaaaaaaaaaaaaaaaaaaaaaaaaaaaaaaaaaaaaaaaaaaaaaaaaaaaaaaaaaaaaaaaaaaaaaaaaaaaaaaaaaaa?k=v"])).to_string();
     let target = if connect { auth_a.clone() } else if form == "abs-http" { format!("http://{}{}", auth_a, path) } else if form == "abs-https" { format!("https://{}{}", auth_a, path) } else { path.clone() };
     let hspell = s("hspell");
     let (hdr_auth, hdr_ip, hdr_port): (Option<String>, Vec<i64>, u16) = match (s("hosthdr").as_str(), target_decides) {
@@ -57,7 +59,14 @@ async fn one_case(log: &Log, r: &mut Rng, c: &Value, http: &str, shard: u8, k: u
         _ => (Some(auth_a.clone()), cells(a_ip), a_port),
     };
     let mut lines: Vec<String> = Vec::new();
-    let extra: Vec<String> = if n("extra") > 0 { vec!["User-Agent: verif/1.0".to_string(), format!("X-Case: {}-{}", shard, k)] } else { vec![] };
+    let mut extra: Vec<String> = if n("extra") > 0 { vec!["User-Agent: verif/1.0".to_string(), format!("X-Case: {}-{}", shard, k)] } else { vec![] };
+    // header blocks of every size class: beyond one 1024-byte read, ending at every residue, near the 64 KiB cap
+    if n("extra") > 0 && s("reach") == "yes" {
+        let fill = match r.below(6) { 0 => 0, 1 | 2 => r.range(900, 1200) as usize, 3 => r.range(1, 5000) as usize, 4 => r.range(20000, 40000) as usize, _ => r.range(64000, 64900) as usize };
+        let mut left = fill;
+        let mut j = 0;
+        while left > 0 { let l = left.min(4000); extra.push(format!("X-Fill-{}: {}", j, "f".repeat(l))); left -= l; j += 1; }
+    }
     // Host header position: first, middle or last
     let pos = r.below(extra.len() as u64 + 1) as usize;
     for (i, e) in extra.iter().enumerate() { if i == pos { if let Some(h) = &hdr_auth { lines.push(format!("{}: {}", hspell, h)); } } lines.push(e.clone()); }
